@@ -99,21 +99,46 @@ func sumFunc(arg query) func(query, iterator) interface{} {
 		switch typ := functionArgs(arg).Evaluate(t).(type) {
 		case query:
 			for node := typ.Select(t); node != nil; node = typ.Select(t) {
-				if v, err := strconv.ParseFloat(node.Value(), 64); err == nil {
+				if v := stringToNumber(node.Value()); !math.IsNaN(v) {
 					sum += v
 				}
 			}
 		case float64:
 			sum = typ
 		case string:
-			v, err := strconv.ParseFloat(typ, 64)
-			if err != nil {
+			v := stringToNumber(typ)
+			if math.IsNaN(v) {
 				panic(errors.New("sum() function argument type must be a node-set or number"))
 			}
 			sum = v
 		}
 		return sum
 	}
+}
+
+// stringToNumber converts a string to a number the way the XPath number() function does:
+// optional whitespace, an optional minus sign, a Number (digits with an optional fraction)
+// and optional whitespace. Any other string converts to NaN.
+func stringToNumber(s string) float64 {
+	s = strings.Trim(s, " \t\r\n")
+	digits, dot := 0, false
+	for i := 0; i < len(s); i++ {
+		switch c := s[i]; {
+		case c >= '0' && c <= '9':
+			digits++
+		case c == '.' && !dot:
+			dot = true
+		case c == '-' && i == 0:
+		default:
+			return math.NaN()
+		}
+	}
+	if digits == 0 {
+		return math.NaN()
+	}
+	// the syntax is valid: the only possible error is a range error, with v = +-Inf
+	v, _ := strconv.ParseFloat(s, 64)
+	return v
 }
 
 func asNumber(t iterator, o interface{}) float64 {
@@ -123,16 +148,11 @@ func asNumber(t iterator, o interface{}) float64 {
 		if node == nil {
 			return math.NaN()
 		}
-		if v, err := strconv.ParseFloat(node.Value(), 64); err == nil {
-			return v
-		}
+		return stringToNumber(node.Value())
 	case float64:
 		return typ
 	case string:
-		v, err := strconv.ParseFloat(typ, 64)
-		if err == nil {
-			return v
-		}
+		return stringToNumber(typ)
 	}
 	return math.NaN()
 }
